@@ -118,17 +118,7 @@ fn report(ctx: &mut CaseCtx, m: &Module, s: &Schedule, sig: Json, what: String) 
     if ctx.violations.iter().any(|v| v.sig == sig) {
         return;
     }
-    ctx.pre_violation(&sig, &what, &json!({"module": module_json(m), "schedule": s.to_json()}));
-    ctx.progress("minimise");
-    let mm = if ctx.violations.len() < 2 && std::env::var_os("CAOSIM_NO_SHRINK").is_none() {
-        shrink_module(m, 80, |cand| {
-            let Compiled::Ok(p) = compile_module(cand) else { return false };
-            violations_of(&p, s, None).iter().any(|(x, _)| x == &sig)
-        })
-    } else {
-        m.clone()
-    };
-    ctx.violation(sig, what, json!({"module": module_json(&mm), "schedule": s.to_json(), "cards": count_cards(&mm)}));
+    ctx.violation(sig, what, json!({"module": module_json(m), "schedule": s.to_json(), "cards": count_cards(m)}));
 }
 
 impl Check for C05 {
@@ -240,6 +230,15 @@ impl Check for C05 {
                 ctx.violation(sig, what, replay.clone());
             }
         }
+    }
+    fn minimise(&self, replay: &Json, sig: &Json) -> Json {
+        let Some(m) = replay.get("module").and_then(module_from_json) else { return replay.clone() };
+        let Some(s) = replay.get("schedule").and_then(Schedule::from_json) else { return replay.clone() };
+        let mm = shrink_module(&m, 80, |cand| {
+            let Compiled::Ok(p) = compile_module(cand) else { return false };
+            violations_of(&p, &s, None).iter().any(|(x, _)| x == sig)
+        });
+        json!({"module": module_json(&mm), "schedule": s.to_json(), "cards": count_cards(&mm)})
     }
     fn assumptions(&self) -> Vec<String> {
         vec![
